@@ -27,6 +27,10 @@ def main():
         sel = args[args.index("-k") + 1]
     if "--tier" in args:
         tier = args[args.index("--tier") + 1]
+    sl = None
+    if "--slice" in args:
+        a, b = args[args.index("--slice") + 1].split("/")
+        sl = (int(a), int(b))
     if "--list" in args:
         for m in MUTANTS:
             print(m["id"], m["props"], m["desc"])
@@ -34,8 +38,10 @@ def main():
     base = "/dev/shm" if os.path.isdir("/dev/shm") else tempfile.gettempdir()
     os.makedirs(os.path.join(VERIF, "sensitivity"), exist_ok=True)
     out = open(os.path.join(VERIF, "sensitivity", "results.jsonl"), "a")
-    for m in MUTANTS:
+    for mi, m in enumerate(MUTANTS):
         if sel and sel not in m["id"] and sel not in ",".join(m["props"]):
+            continue
+        if sl and mi % sl[1] != sl[0]:
             continue
         scratch = tempfile.mkdtemp(prefix="vfmut-", dir=base)
         try:
